@@ -8,6 +8,8 @@ import (
 	"github.com/chain4energy/c4e-chain/x/cfedistributor/types"
 	"github.com/cosmos/cosmos-sdk/codec"
 	sdk "github.com/cosmos/cosmos-sdk/types"
+	sdkerrors "github.com/cosmos/cosmos-sdk/types/errors"
+	authtypes "github.com/cosmos/cosmos-sdk/x/auth/types"
 	paramtypes "github.com/cosmos/cosmos-sdk/x/params/types"
 )
 
@@ -48,7 +50,25 @@ func (k Keeper) Logger(ctx sdk.Context) log.Logger {
 }
 
 func (k Keeper) SendCoinsFromModuleToModule(ctx sdk.Context, coins sdk.Coins, moduleFrom string, moduleTo string) error {
+	if k.moduleAddressOccupied(ctx, moduleTo) {
+		// x/bank would panic ("account is not a module account") in the middle of BeginBlock
+		return sdkerrors.Wrapf(sdkerrors.ErrInvalidType, "the address of module account %s is occupied by an account of another type", moduleTo)
+	}
 	return k.bankKeeper.SendCoinsFromModuleToModule(ctx, moduleFrom, moduleTo, coins)
+}
+
+// moduleAddressOccupied reports whether the address of the module account holds an account
+// that is not a module account. A module account is only created on its first use; until then
+// anybody can put a base account at its address (x/feegrant and x/authz create the account of
+// a grantee without looking at the blocked addresses), and x/auth panics whenever the module
+// account is asked for afterwards.
+func (k Keeper) moduleAddressOccupied(ctx sdk.Context, moduleName string) bool {
+	acc := k.accountKeeper.GetAccount(ctx, authtypes.NewModuleAddress(moduleName))
+	if acc == nil {
+		return false
+	}
+	_, isModuleAccount := acc.(authtypes.ModuleAccountI)
+	return !isModuleAccount
 }
 
 func (k Keeper) SendCoinsFromModuleAccount(ctx sdk.Context, coins sdk.Coins, moduleFrom string, account sdk.AccAddress) error {
@@ -69,6 +89,9 @@ func (k Keeper) GetAccountCoins(ctx sdk.Context, account sdk.AccAddress) sdk.Coi
 }
 
 func (k Keeper) GetAccountAddressModuleAccount(ctx sdk.Context, accountName string) sdk.AccAddress {
+	if k.moduleAddressOccupied(ctx, accountName) {
+		return authtypes.NewModuleAddress(accountName)
+	}
 	return k.accountKeeper.GetModuleAccount(ctx, accountName).GetAddress()
 }
 
